@@ -59,6 +59,11 @@ pub struct Scn {
     /// handler mode: route pattern, e.g. "/api/*"
     #[serde(default)]
     pub matches: String,
+    /// handler mode: "plain" (prefix + path) | "prefix-repeated" (the literal prefix occurs twice
+    /// in a row at the start) | "prefix-thrice" | "equal-prefix" (nothing after the prefix) |
+    /// "prefix-later" (the prefix text occurs again further down the path)
+    #[serde(default)]
+    pub path_shape: String,
     #[serde(default)]
     pub targets: usize,
     #[serde(default)]
@@ -202,7 +207,7 @@ impl Prop for C09 {
         }
     }
     fn rule(&self) -> &'static str {
-        "One case = one client request (C02 generator) proxied to one scripted upstream behaviour. Run indices walk the cut offsets of generated valid responses (39 status codes; Content-Length / chunked with random chunkings and hex case / close-delimited / body-less) so that, for every generated response in the batch, EVERY byte offset is cut once by FIN and once by RST; interleaved with the other behaviours: valid (closing and keep-alive upstreams), garbage (8 kinds), connection refused, black-holed SYN, accept-then-silence, accept-then-close, stall after k bytes, nothing for 30..90% of the timeout then a partial response then silence, one byte per 50 virtual ms; through proxy_request directly and through the server's proxy_handler (prefix stripping), plus target-selection cases (1..4 targets, 1..8 threads through the real EqMutex<LoadBalancer>). Distinct = distinct (behaviour, status, framing, cut offset class, outcome); non-trivial = the upstream accepted a connection or a fault was injected."
+        "One case = one client request (C02 generator) proxied to one scripted upstream behaviour. Run indices walk the cut offsets of generated valid responses (39 status codes; Content-Length / chunked with random chunkings and hex case / close-delimited / body-less) so that, for every generated response in the batch, EVERY byte offset is cut once by FIN and once by RST; interleaved with the other behaviours: valid (closing and keep-alive upstreams), garbage (8 kinds), connection refused, black-holed SYN, accept-then-silence, accept-then-close, stall after k bytes, nothing for 30..90% of the timeout then a partial response then silence, one byte per 50 virtual ms; through proxy_request directly and through the server's proxy_handler (prefix stripping for the patterns /api/*, /*, /a/b/*, /api* with paths in which the literal prefix occurs once, twice or three times in a row, alone, or again further down), plus target-selection cases (1..4 targets, 1..8 threads through the real EqMutex<LoadBalancer>). Distinct = distinct (behaviour, status, framing, cut offset class, outcome); non-trivial = the upstream accepted a connection or a fault was injected."
     }
     fn assumptions(&self) -> Vec<String> {
         vec![
@@ -213,7 +218,7 @@ impl Prop for C09 {
         ]
     }
     fn expected_counters(&self) -> Vec<&'static str> {
-        vec!["c09.valid", "c09.cut_fin", "c09.cut_rst", "c09.garbage", "c09.refuse", "c09.blackhole", "c09.silence", "c09.accept_close", "c09.stall", "c09.late-stall", "c09.trickle", "c09.handler_mode", "c09.balance_mode", "c09.framing.chunked", "c09.framing.close", "c09.framing.cl", "c09.framing.none", "c09.keepalive_upstream", "net.connect_refused", "net.connect_blackholed", "net.rst_sent"]
+        vec!["c09.valid", "c09.cut_fin", "c09.cut_rst", "c09.garbage", "c09.refuse", "c09.blackhole", "c09.silence", "c09.accept_close", "c09.stall", "c09.late-stall", "c09.trickle", "c09.handler_mode", "c09.handler_path.prefix-repeated", "c09.handler_path.equal-prefix", "c09.handler_path.prefix-later", "c09.balance_mode", "c09.framing.chunked", "c09.framing.close", "c09.framing.cl", "c09.framing.none", "c09.keepalive_upstream", "net.connect_refused", "net.connect_blackholed", "net.rst_sent"]
     }
     fn real_vs_stub(&self) -> (Vec<&'static str>, Vec<&'static str>) {
         (vec!["humphrey::http::proxy::proxy_request", "Response::from_stream + parse_chunk", "From<Request> for Vec<u8>", "humphrey_server::proxy::{proxy_handler, LoadBalancer::select_target, EqMutex}", "Lcg"], vec!["TcpStream / connect_timeout / timeouts (humsim::net)", "Instant/SystemTime (virtual)", "the upstream is a scripted reference server"])
@@ -280,7 +285,8 @@ impl Prop for C09 {
             req,
             upstream: up,
             timeout_ms,
-            matches: ["/api/*", "/*", "/a/b/*"][rng.usize_below(3)].into(),
+            matches: ["/api/*", "/*", "/a/b/*", "/api*"][rng.usize_below(4)].into(),
+            path_shape: ["plain", "plain", "prefix-repeated", "prefix-thrice", "equal-prefix", "prefix-later"][rng.usize_below(6)].into(),
             targets: rng.range(1, 4) as usize,
             lb_random: rng.chance(1, 2),
             threads: rng.range(1, 8) as usize,
@@ -312,7 +318,16 @@ impl Prop for C09 {
         let mut model = scn.req.clone();
         let prefix: String = scn.matches.chars().take_while(|c| *c != '*').collect();
         if handler {
-            model.path = format!("{}{}", prefix, model.path.trim_start_matches('/'));
+            let rest = model.path.trim_start_matches('/').to_string();
+            let again = prefix.trim_start_matches('/').to_string();
+            model.path = match scn.path_shape.as_str() {
+                "prefix-repeated" if !again.is_empty() => format!("{}{}{}", prefix, again, rest),
+                "prefix-thrice" if !again.is_empty() => format!("{}{}{}{}", prefix, again, again, rest),
+                "equal-prefix" => prefix.clone(),
+                "prefix-later" if !again.is_empty() => format!("{}{}/{}", prefix, rest, again),
+                _ => format!("{}{}", prefix, rest),
+            };
+            rr.count(&format!("c09.handler_path.{}", if ["prefix-repeated", "prefix-thrice", "equal-prefix", "prefix-later"].contains(&scn.path_shape.as_str()) { scn.path_shape.as_str() } else { "plain" }), 1);
         }
         let model2 = model.clone();
         let mut scn2 = scn2;
